@@ -58,13 +58,74 @@ def _around_hang(h, cout, cases, rerun, depth):
         return None, err
     return done + [list(HANG)] + b, ''
 
+# ---------------------------------------------------------------- freshness of the build cache
+# cargo decides whether a workspace crate must be rebuilt by comparing file modification times
+# with its artefacts.  A tree that was restored or switched with OLDER mtimes than the cached
+# artefacts (rsync -a from a pristine copy, a second checkout) would be taken for already built
+# and the check would run yesterday's code.  The content of the source files decides instead:
+# when the digest of REPO's sources differs from the one the cache was built from, the
+# fingerprints of the workspace crates and of the harness crates are dropped (in /verif/.build
+# only), which makes cargo rebuild exactly those.
+_SRC_EXT = ('.rs', '.toml', '.proto', '.lock')
+
+def tree_digest(repo=None):
+    import hashlib
+    repo = os.path.realpath(repo or REPO)
+    h = hashlib.sha256()
+    for root, dirs, files in os.walk(repo):
+        dirs[:] = sorted(d for d in dirs if d not in ('target', '.git', 'node_modules') and not d.startswith('.'))
+        for fn in sorted(files):
+            if fn.endswith(_SRC_EXT):
+                fp = os.path.join(root, fn)
+                try:
+                    data = open(fp, 'rb').read()
+                except OSError:
+                    continue
+                h.update(os.path.relpath(fp, repo).encode()); h.update(b'\0'); h.update(hashlib.sha256(data).digest())
+    return h.hexdigest()
+
+def ensure_fresh():
+    import json, glob
+    from .util import flock
+    ensure_dir(BUILD)
+    with flock('freshness'):
+        stamp = os.path.join(BUILD, 'tree_digest.json')
+        try:
+            known = json.load(open(stamp))
+        except (OSError, ValueError):
+            known = {}
+        key = os.path.realpath(REPO)
+        d = tree_digest()
+        if known.get(key) == d:
+            return False
+        had = key in known
+        known[key] = d
+        if had:
+            for fpdir in glob.glob(os.path.join(BUILD, '*', '*', '.fingerprint')) + glob.glob(os.path.join(BUILD, '*', '*', '*', '.fingerprint')):
+                for e in os.listdir(fpdir):
+                    if e.startswith(('rustybgp', 'hx-', 'hx_')):
+                        shutil.rmtree(os.path.join(fpdir, e), ignore_errors=True)
+        json.dump(known, open(stamp, 'w'), indent=1)
+        return had
+
+def _daemon_target():
+    """One target directory per repository path: cargo names workspace artefacts independently of the
+    absolute path of the workspace and judges freshness by mtime, so a second checkout whose files are
+    older than the artefacts of the first would be taken for already built."""
+    if os.path.realpath(REPO) == '/repo':
+        return 'daemon'
+    import hashlib
+    return 'daemon_' + hashlib.sha1(os.path.realpath(REPO).encode()).hexdigest()[:10]
+
 def daemon_test(name, test_filter, cases, release=False, timeout=1500, extra_env=None, _depth=0):
     """Runs one #[test] of the hook modules compiled into the daemon crate
     (cfg(all(test, osrg_rustybgp_verif))) from /repo's current working tree."""
+    if _depth == 0:
+        ensure_fresh()
     cin, cout = _write_cases(name, cases)
     env = {'RUSTFLAGS': '--cfg ' + GUARD,
            'VERIF_HX_DIR': os.path.join(VERIF, 'harness'),
-           'CARGO_TARGET_DIR': os.path.join(BUILD, 'daemon'),
+           'CARGO_TARGET_DIR': os.path.join(BUILD, _daemon_target()),
            'VERIF_CASES': cin, 'VERIF_OUT': cout}
     if extra_env:
         env.update(extra_env)
@@ -90,6 +151,8 @@ def render_manifest(cdir):
 
 def crate_bin(name, crate, args, cases, release=False, timeout=1500, extra_env=None, _depth=0):
     """Runs a harness crate under /verif/harness/<crate> (path deps on /repo crates)."""
+    if _depth == 0:
+        ensure_fresh()
     cin, cout = _write_cases(name, cases)
     cdir = os.path.join(VERIF, 'harness', crate)
     render_manifest(cdir)
